@@ -10,6 +10,7 @@ from vf.checks import parserlevel as PL
 
 PROPERTY = "C04"
 LEVEL = "exploration"
+SHRINKABLE = True  # violating documents are minimised (ddmin) before the replay file is written
 BASELINE = "C04"
 REQUIRED_COUNTERS = ["parsed", "tokens_checked"]
 ASSUMPTIONS = ["BLANK tokens inside html/code blocks are the parser's legitimate representation of blank content lines"]
